@@ -2,7 +2,10 @@
 Model of `pybtex.database.Person`: `__init__`, `_parse_string` with its local helpers
 (`process_first_middle`, `process_von_last`, `find_pos`, `split_at`, `rsplit_at`, `is_von_name`,
 `special_char_islower`), `bibtex_first_names`, `__str__`, `get_part_as_text`.
-(`find_pos` after the repair: an empty list gives position 0.)
+(`find_pos` after the repair: an empty list gives position 0; `is_von_name` after the repair
+C04-1: an over-nested token has no case instead of raising; `special_char_islower` after the
+repair C04-2: BibTeX's built-in foreign characters `\i \j \oe \ae \aa \o \l \ss` / `\OE \AE \AA \O \L`
+have their own case.)
 
 Character classes: `is_von_name` / `special_char_islower` call `str.isalpha`, `str.isupper`,
 `str.islower` on SINGLE characters; these are the interpreter's Unicode tables, regenerated on
@@ -24,7 +27,8 @@ structure Person where
 deriving Repr, DecidableEq
 
 inductive NameErr where
-  | tooDeep       -- `BibTeXError('too many nested braces')` from `scan_bibtex_string`
+  | tooDeep       -- `BibTeXError('too many nested braces')` from `scan_bibtex_string` (no longer raised by
+                  -- `Person(...)` after the repair C04-1; kept for the callers that pass it on)
   | indexError    -- `string[0]` on an empty token (unreachable: tokens are never empty)
   | valueError    -- `raise ValueError(name)`: zero comma-parts (unreachable)
 deriving Repr, DecidableEq
@@ -41,13 +45,26 @@ def isUpperN (c : Char) : Bool := inRanges c.toNat Gen.upperRanges
 /-- `c.islower()` for one character. -/
 def isLowerN (c : Char) : Bool := inRanges c.toNat Gen.lowerRanges
 
-/-- `special_char_islower`. -/
+/-- the loop of `special_char_islower` (`true` = still inside the control sequence). -/
 def specialCharIsLowerAux : Bool → Str → Bool
   | _, [] => false
   | true, c :: r => if !isAlphaN c then specialCharIsLowerAux false r else specialCharIsLowerAux true r
   | false, c :: r => if isAlphaN c then isLowerN c else specialCharIsLowerAux false r
 
-def specialCharIsLower (sc : Str) : Bool := specialCharIsLowerAux true (sc.drop 1)
+/-- the tuples of `special_char_islower` (repair C04-2): the control sequences of the foreign
+characters built into BibTeX, lower case and upper case. -/
+def lowerControlSeqs : List Str :=
+  [['i'], ['j'], ['o', 'e'], ['a', 'e'], ['a', 'a'], ['o'], ['l'], ['s', 's']]
+def upperControlSeqs : List Str := [['O', 'E'], ['A', 'E'], ['A', 'A'], ['O'], ['L']]
+
+/-- `special_char_islower` (after the repair C04-2): the control sequence is
+`takewhile(isalpha, special_char[1:])`; a built-in foreign character has its own case, otherwise
+the first letter after the control sequence decides. -/
+def specialCharIsLower (sc : Str) : Bool :=
+  let name := (sc.drop 1).takeWhile isAlphaN
+  if lowerControlSeqs.contains name then true
+  else if upperControlSeqs.contains name then false
+  else specialCharIsLowerAux true (sc.drop 1)
 
 /-- the `for char, brace_level in scan_bibtex_string(string)` loop of `is_von_name`
 (a brace-level-0 token is one character, so `char.isalpha()` / `char.islower()` are the
@@ -59,7 +76,8 @@ def vonScan : List Tok → Bool
     else if l = 1 ∧ startsWithBackslash t then specialCharIsLower t
     else vonScan r
 
-/-- `is_von_name`. -/
+/-- `is_von_name` (after the repair C04-1: `too many nested braces` from the scanner is caught,
+the token then has no case). -/
 def isVonName (tok : Str) : Except NameErr Bool :=
   match tok with
   | [] => .error .indexError
@@ -67,7 +85,7 @@ def isVonName (tok : Str) : Except NameErr Bool :=
     if isUpperN c then .ok false
     else if isLowerN c then .ok true
     else match scan tok with
-      | none => .error .tooDeep
+      | none => .ok false
       | some toks => .ok (vonScan toks)
 
 /-- `find_pos` (repaired: 0 for the empty list) with a predicate that may raise. -/
